@@ -1,6 +1,7 @@
 package main
 
 import (
+	"encoding/json"
 	"flag"
 	"fmt"
 	"os"
@@ -32,6 +33,8 @@ func main() {
 		cmdLoops(os.Args[2:])
 	case "check":
 		cmdCheck(os.Args[2:])
+	case "replay":
+		cmdReplay(os.Args[2:])
 	default:
 		usage()
 	}
@@ -157,7 +160,50 @@ func cmdLoops(args []string) {
 	}
 }
 
-func cmdCheck(args []string) {
-	fmt.Fprintln(os.Stderr, "check: not implemented yet")
-	os.Exit(2)
+func cmdReplay(args []string) {
+	fs := flag.NewFlagSet("replay", flag.ExitOnError)
+	repo := fs.String("repo", "/repo", "repository")
+	fs.Parse(args)
+	if fs.NArg() != 1 {
+		usage()
+	}
+	file := fs.Arg(0)
+	b, err := os.ReadFile(file)
+	if err != nil {
+		fmt.Fprintln(os.Stderr, err)
+		os.Exit(2)
+	}
+	if !strings.HasSuffix(file, "_test.go") {
+		fmt.Print(string(b))
+		fmt.Println("(no executable replay: the verifier produced no failing input for this obligation)")
+		os.Exit(1)
+	}
+	var meta ReplayMeta
+	for _, l := range strings.Split(string(b), "\n") {
+		if strings.HasPrefix(l, "// GOVC-META ") {
+			json.Unmarshal([]byte(strings.TrimPrefix(l, "// GOVC-META ")), &meta)
+		}
+	}
+	if meta.Func == "" {
+		fmt.Fprintln(os.Stderr, "no GOVC-META header")
+		os.Exit(2)
+	}
+	p := loadAll(*repo)
+	fn, con := p.Funcs[meta.Func], p.Store.Funcs[meta.Func]
+	if fn == nil || con == nil {
+		fmt.Fprintln(os.Stderr, "function or contract not found:", meta.Func)
+		os.Exit(2)
+	}
+	// recover inputs from the model
+	o := &Obligation{Name: meta.Obligation, Model: meta.Model}
+	dir, _ := os.MkdirTemp("", "govc-replay-")
+	defer os.RemoveAll(dir)
+	out := p.Replay(meta.Func, o, meta.Property, dir)
+	fmt.Printf("obligation: %s\ninputs: %v\noutcome: %s\n", meta.Obligation, meta.Inputs, out.Detail)
+	if out.Reproduced {
+		fmt.Printf("VIOLATION property=%s replay=%s\n", meta.Property, file)
+		os.Exit(1)
+	}
+	os.Exit(0)
 }
+
